@@ -342,6 +342,12 @@ func runC10(t *kernel.Tape, opt core.Opts) *core.Outcome {
 			o.Violate("C10/foreign-context", fmt.Sprintf("handler %s invoked with the context of %q", ev.Handler, ev.Tag))
 		}
 	}
+	if mr.Err == ErrNone && len(mr.AltErr) == 0 {
+		// (a failed eager run may report its error while nodes it had already started still run)
+		for _, v := range nestingViolations(env.Callbacks.Events, handlerIDs) {
+			o.Violate("C10/inner-unit-started-outside-its-graph", v)
+		}
+	}
 	// the run as a whole is one execution unit: one start and one end (or error), whatever
 	// happens inside and however early the run fails
 	for _, h := range handlerIDs {
@@ -414,7 +420,7 @@ func init() {
 	})
 	core.Register(&core.Profile{
 		RaceQuick: 200, RaceThorough: 3000, ID: "C10", Engine: "graphsim", Quick: 2000, Thorough: 50000, ThoroughSeeds: 3, Run: runC10,
-		Rule: "each run draws a plan (all modes, nested graphs, parallel nodes), a handler supply (global handler, 0-3 graph-level handlers each in its own call option, 0-3 handlers designated to nodes or node paths), per handler what it does with stream payloads (read all, read one chunk, close at once), optionally a failing node; oracle: per handler and execution unit exactly one start-type and one end-type callback, start first, the unit's RunInfo, designated handlers only for their node, start payload = an input of that node, graph data equal to the model; handler options are built from caller slices with spare capacity and passed in a drawn order; one option may designate several targets (nested paths and top-level keys mixed) including nodes that have a handler of their own; faults: a failing node or a branch condition that returns an error; the graph itself gets exactly one start and one end callback whatever happens; some node bodies do inner work under a handler-less callback context of their own, which no handler of the run may see",
+		Rule: "each run draws a plan (all modes, nested graphs, parallel nodes), a handler supply (global handler, 0-3 graph-level handlers each in its own call option, 0-3 handlers designated to nodes or node paths), per handler what it does with stream payloads (read all, read one chunk, close at once), optionally a failing node; oracle: per handler and execution unit exactly one start-type and one end-type callback, start first, the unit's RunInfo, designated handlers only for their node, start payload = an input of that node, graph data equal to the model; handler options are built from caller slices with spare capacity and passed in a drawn order; one option may designate several targets (nested paths and top-level keys mixed) including nodes that have a handler of their own; faults: a failing node or a branch condition that returns an error; the graph itself gets exactly one start and one end callback whatever happens; some node bodies do inner work under a handler-less callback context of their own, which no handler of the run may see; a unit inside a nested graph starts only while the nested graph's own unit is open",
 		Real: graphReal, Stub: append([]string{"callback handlers (recording stubs; stream payloads read by handler tasks)"}, graphStub...),
 		Faults: []string{"handlers closing or partially reading their stream copies", "parallel nodes", "node error/panic"},
 	})
